@@ -727,9 +727,10 @@ func (V *Verifier) verifyFunction(fn *ssa.Function, lockMode bool) *FnResult {
 	for i, pt := range params {
 		ex.addCand(candClass(pt.Sort, fn.Params[i].Type()), pt)
 	}
-	if c != nil && len(c.Modifies) > 0 {
+	if c != nil && (len(c.Modifies) > 0 || c.HasMods) {
 		ex.frameRef()
 		ex.frameKey(SStr)
+		ex.frameKey(SInt)
 	}
 	if c != nil {
 		// skolem constants of this function's own quantified postconditions exist from the start,
@@ -926,6 +927,8 @@ func (ex *Exec) compSorts(k string) string { return ex.V.compSorts[k] }
 func (ex *Exec) frameRef() Term {
 	t := ex.sc.declare("frameref", SInt)
 	ex.addCand("Int#ref", t)
+	// a slice over the frame object's backing array, so that clauses quantified over slices reach its elements
+	ex.addCand(SSlice, app(SSlice, "mkSlice", t, intLit(0), intLit(0)))
 	return t
 }
 
@@ -983,6 +986,16 @@ func (ex *Exec) frameObligations(f *frame, c *Contract) {
 				ks, _ := splitArraySort(es)
 				kc := ex.frameKey(ks)
 				goal = eq(sel(sel(post, r), kc), sel(sel(pre, r), kc))
+				if strings.HasPrefix(k, "MV:") {
+					// values matter only at present keys (a lookup of an absent key yields the zero value, never the raw entry);
+					// the domain component has its own frame obligation
+					dk := "MD:" + strings.TrimPrefix(k, "MV:")
+					if dpost, ok := f.exit.heap[dk]; ok {
+						goal = implies(sel(sel(dpost, r), kc), goal)
+					} else if ds, ok := ex.V.compSorts[dk]; ok {
+						goal = implies(sel(sel(ex.sc.declare("pre:"+dk, ds), r), kc), goal)
+					}
+				}
 			}
 			ex.oblige(f, f.exit, "frame", k, "", f.fn.Pos(), implies(and(hyp...), goal), "frame: "+k+" unchanged outside the modifies clause")
 		} else {
